@@ -74,7 +74,11 @@ def _cg(ctx: Ctx, rule: str):
                 ctx.__dict__["_topo_arg"] = g
                 ctx.__dict__["_topo_key"] = (ex, m["k"])
     if pgr is None:
-        raise AnalysisError(rule, fn.site, "no topological sort of a locally built priority graph found")
+        # the conflict graph is still built here, but the order is no longer a topological sort of a priority graph
+        ctx.bad(rule.split(".")[0] + ".priority-order-is-toposort", fn.site, "_conflict_graph.order",
+                found="no networkx.lexicographical_topological_sort over a locally built priority graph",
+                required="the priority order is a topological sort of the priority graph (cycles are rejected by the sort)")
+        ctx.__dict__["_topo_arg"] = ("c", None)
     return fn, cgr, pgr, porder
 
 
@@ -290,6 +294,8 @@ def cg_priority_edges(ctx: Ctx, pid: str):
     """C08.a: orientation parity of priority edges -> topological order -> numbering."""
     rule = f"{pid}.priority-parity"
     fn, cgr, pgr, porder = _cg(ctx, rule)
+    if pgr is None:
+        return
     ins = _edge_inserts(fn, pgr)
     ctx.analysed[f"{rule}:priority edge insertions"] = len(ins)
     if len(ins) < 2:
@@ -390,7 +396,7 @@ def cg_priority_passthrough(ctx: Ctx, pid: str):
     """C08.b: every relation's priority reaches add_edge unchanged; schedule_before = LEFT, conflict=False."""
     rule = f"{pid}.priority-passthrough"
     fn, cgr, pgr, _ = _cg(ctx, rule)
-    for ex, e, x, y in _edge_inserts(fn, pgr):
+    for ex, e, x, y in (_edge_inserts(fn, pgr) if pgr is not None else []):
         (br,), _ = loops(e)[0]
         g = py_guard(e)
         subj = {a[1] for a in atoms_of(g) if a[0] == "match"}
